@@ -344,6 +344,9 @@ fn make_event(m: &sim::Model, inv: &crate::maps::Inv, rng: &mut Rng, kind: u64, 
 fn run(ctx: &mut Ctx) {
     let m = sim::Model::load(&repo_root());
     let inv = crate::maps::inverse(u32::MAX);
+    // a real-data run: other pad map, calibration files with gaps (a channel without calibration must fail the build in
+    // every order and every process alike)
+    let inv_real = crate::maps::inverse(11500);
     let n_events = ctx.tier.pick(34, 120);
     let shard = ctx.shard as u64;
     // NOTE: every shard processes *all* events (the comparison across processes is the point);
@@ -360,7 +363,9 @@ fn run(ctx: &mut Ctx) {
         let mut rng = ctx.rng_for("events", i);
         // the 21 kinds once each, then valid events only (odd ones with per-packet metadata, the spread of the PWB trigger
         // timestamps cycling through 8, 0, 4, 1, 9, 1000, 5, unrelated)
-        let (banks, what) = make_event(&m, &inv, &mut rng, if i < 21 { i } else { 0 }, i);
+        let run_no: u32 = if i >= 21 && i % 4 == 2 { 11500 } else { u32::MAX };
+        let (banks, what) = make_event(&m, if run_no == u32::MAX { &inv } else { &inv_real }, &mut rng, if i < 21 { i } else { 0 }, i);
+        let what = if run_no == u32::MAX { what } else { "valid multi-track event under a real run number" };
         let groups = {
             let mut g: Vec<&str> = banks.iter().filter(|b| b.0.starts_with("PC")).map(|b| &b.0[..]).collect();
             g.sort();
@@ -373,10 +378,10 @@ fn run(ctx: &mut Ctx) {
         if shard % 2 == 1 {
             let mut poison: Banks = banks.iter().filter(|b| b.0.starts_with("PC")).take(6).cloned().collect();
             poison.push(("C09A".into(), vec![1, 3, 0, 0]));
-            let _ = guard(|| digest(u32::MAX, &poison));
+            let _ = guard(|| digest(run_no, &poison));
         }
         ctx.eval();
-        let d0 = match guard(|| digest(u32::MAX, &banks)) {
+        let d0 = match guard(|| digest(run_no, &banks)) {
             Ok(d) => d,
             Err(p) => {
                 ctx.panic_violation("try_from_banks / avalanches / vertex", &p, json!({"event": i, "what": what}));
@@ -418,7 +423,7 @@ fn run(ctx: &mut Ctx) {
         }
         for (pi, b) in perms.iter().enumerate() {
             ctx.eval();
-            match guard(|| digest(u32::MAX, b)) {
+            match guard(|| digest(run_no, b)) {
                 Ok(d) if d == d0 => ctx.count("permutations with identical digest / outcome class"),
                 Ok(d) => {
                     let kind = if (d == "ERR") != (d0 == "ERR") { "event builds in one bank order and fails in another" } else { "result bits depend on the bank order" };
@@ -434,7 +439,7 @@ fn run(ctx: &mut Ctx) {
         // (b) threads
         if i % 3 == 0 {
             let res: Vec<String> = std::thread::scope(|s| {
-                let hs: Vec<_> = (0..8).map(|_| std::thread::Builder::new().stack_size(64 << 20).spawn_scoped(s, || digest(u32::MAX, &banks)).unwrap()).collect();
+                let hs: Vec<_> = (0..8).map(|_| std::thread::Builder::new().stack_size(64 << 20).spawn_scoped(s, || digest(run_no, &banks)).unwrap()).collect();
                 hs.into_iter().map(|h| h.join().unwrap_or_else(|_| "PANIC".into())).collect()
             });
             ctx.eval_n(8);
